@@ -52,6 +52,11 @@ func (m *Socks5Matcher) Match(cx *layer4.Connection) (bool, error) {
 		return false, err
 	}
 
+	// RFC 1928: the METHODS field holds 1 to 255 methods
+	if buf[0] == 0 {
+		return false, nil
+	}
+
 	// read auth methods
 	methods := make([]byte, buf[0])
 	_, err := io.ReadFull(cx, methods)
